@@ -140,6 +140,10 @@ func (fc *FnCtx) resolveType(pkgName, text string) specType {
 	case "any":
 		return specType{T: types.NewInterfaceType(nil, nil), Sort: SIface}
 	}
+	if text == "int" {
+		// bound variables and spec parameters of type int are mathematical integers
+		return specType{T: types.Typ[types.Int], Sort: SInt, Math: true}
+	}
 	if t, ok := basicByName[text]; ok {
 		return specType{T: t, Sort: fc.sortOf(t)}
 	}
@@ -469,14 +473,14 @@ func (e *Env) index(x, i Term) Term {
 	fc := e.fc
 	if x.View != nil {
 		et := elemOfSliceOrString(x.T)
-		return mk(fmt.Sprintf("(select %s (+ (sl_off %s) %s))", x.View.S, x.S, i.S), fc.sortOf(et), et)
+		return mk(fmt.Sprintf("(select %s (ix (sl_off %s) %s))", x.View.S, x.S, i.S), fc.sortOf(et), et)
 	}
 	switch u := typeOrNil(x.T).(type) {
 	case *types.Slice:
-		return e.elemAt(slArr(x), mk(app("+", slOff(x).S, i.S), SInt, nil), u.Elem())
+		return e.elemAt(slArr(x), mk(app("ix", slOff(x).S, i.S), SInt, nil), u.Elem())
 	case *types.Basic: // string
 		if u.Info()&types.IsString != 0 {
-			return e.elemAt(slArr(x), mk(app("+", slOff(x).S, i.S), SInt, nil), types.Typ[types.Uint8])
+			return e.elemAt(slArr(x), mk(app("ix", slOff(x).S, i.S), SInt, nil), types.Typ[types.Uint8])
 		}
 	case *types.Pointer:
 		if a, ok := u.Elem().Underlying().(*types.Array); ok {
@@ -666,6 +670,70 @@ func (e *Env) call(c SCall) Term {
 			p = slArr(a)
 		}
 		return mk(fmt.Sprintf("(< (rootid %s) %s)", p.S, e.st.nextID.S), SBool, nil)
+	case "unchanged":
+		// unchanged(COMP): the heap component equals its old version
+		if e.old == nil {
+			e.fail("unchanged() needs an old state")
+		}
+		var cs []Term
+		for _, a := range c.Args {
+			for _, name := range e.compNames(a) {
+				cs = append(cs, tEq(fc.comp(e.st, name), fc.comp(e.old, name)))
+			}
+		}
+		return tAnd(cs...)
+	case "unchangedExceptArr":
+		// unchangedExceptArr(COMP, arrptr, lo, hi): element component changed at most at indices [lo,hi) of array arrptr
+		if e.old == nil {
+			e.fail("needs an old state")
+		}
+		a := []Term{e.eval(c.Args[1]), e.eval(c.Args[2]), e.eval(c.Args[3])}
+		var cs []Term
+		for _, name := range e.compNames(c.Args[0]) {
+			cur, old := fc.comp(e.st, name), fc.comp(e.old, name)
+			if cur.S == old.S {
+				continue
+			}
+			cur = fc.nameTerm("hc", cur)
+			fc.n++
+			q, i := fmt.Sprintf("q!q%d", fc.n), fmt.Sprintf("i!q%d", fc.n)
+			fc.usesRootid = true
+			// (1) every other pre-existing array is unchanged as a whole
+			cs = append(cs, mk(fmt.Sprintf("(forall ((%s Ptr)) (! (=> (and (< (rootid %s) %s) (not (= %s %s))) (= (select %s %s) (select %s %s))) :pattern ((select %s %s))))",
+				q, q, e.old.nextID.S, q, a[0].S, cur.S, q, old.S, q, cur.S, q), SBool, nil))
+			// (2) the designated array is unchanged outside [lo,hi)
+			cs = append(cs, mk(fmt.Sprintf("(=> (< (rootid %s) %s) (forall ((%s Int)) (! (=> (or (< %s %s) (>= %s %s)) (= (select (select %s %s) %s) (select (select %s %s) %s))) :pattern ((select (select %s %s) %s)))))",
+				a[0].S, e.old.nextID.S, i, i, a[1].S, i, a[2].S, cur.S, a[0].S, i, old.S, a[0].S, i, cur.S, a[0].S, i), SBool, nil))
+		}
+		return tAnd(cs...)
+	case "onlyFresh", "onlyFreshExcept":
+		// every location that existed in the old state (other than *except and its sub-objects) is unchanged
+		if e.old == nil {
+			e.fail("needs an old state")
+		}
+		var except []Term
+		for _, a := range c.Args {
+			except = append(except, e.eval(a))
+		}
+		var cs []Term
+		for _, name := range fc.sortedComps() {
+			cur, old := fc.comp(e.st, name), fc.comp(e.old, name)
+			if cur.S == old.S {
+				continue
+			}
+			cur = fc.nameTerm("hc", cur)
+			fc.n++
+			q := fmt.Sprintf("q!q%d", fc.n)
+			cond := []string{fmt.Sprintf("(< (rootid %s) %s)", q, e.old.nextID.S)}
+			for _, x := range except {
+				cond = append(cond, fmt.Sprintf("(not (= %s %s))", q, x.S),
+					fmt.Sprintf("(not (and (is_PField %s) (= (pf_base %s) %s)))", q, q, x.S),
+					fmt.Sprintf("(not (and (is_PField %s) (is_PField (pf_base %s)) (= (pf_base (pf_base %s)) %s)))", q, q, q, x.S))
+			}
+			cs = append(cs, mk(fmt.Sprintf("(forall ((%s Ptr)) (! (=> (and %s) (= (select %s %s) (select %s %s))) :pattern ((select %s %s))))",
+				q, strings.Join(cond, " "), cur.S, q, old.S, q, cur.S, q), SBool, nil))
+		}
+		return tAnd(cs...)
 	case "closed":
 		a := args()[0]
 		return tSel(fc.comp(e.st, fc.compChanClosed()), a, SBool, nil)
@@ -913,4 +981,27 @@ func viewElem(pt specType) (types.Type, bool) {
 		return et, true
 	}
 	return nil, false
+}
+
+// compNames resolves a component designator in a contract: a literal component name, a prefix
+// ending in *, or "elems(T)" style names are not supported; plain identifiers only.
+func (e *Env) compNames(x SExpr) []string {
+	id, ok := x.(SIdent)
+	if !ok {
+		e.fail("component name expected, got %s", x)
+	}
+	if _, ok := e.fc.comps[id.Name]; ok {
+		return []string{id.Name}
+	}
+	var out []string
+	for _, c := range e.fc.sortedComps() {
+		if strings.HasPrefix(c, id.Name) {
+			out = append(out, c)
+		}
+	}
+	if len(out) == 0 {
+		// not known in this context: nothing here reads or writes it
+		return nil
+	}
+	return out
 }
